@@ -517,7 +517,8 @@ private:
 	void set_event(Functor &f)
 	{
 		lock_guard l(data_mutex_);
-		if(polling_ || !reactor_.get()) {
+		// never overtake requests that are still waiting in the queue
+		if(polling_ || !reactor_.get() || !dispatch_queue_.empty()) {
 			dispatch_queue_.push_back(completion_handler(f));
 			if(reactor_.get())
 				wake();
@@ -531,7 +532,7 @@ private:
 		lock_guard l(data_mutex_);
 		if(!f.cancelation_is_needed_with_data_mutex_locked())
 			return;
-		if(polling_ || !reactor_.get()) {
+		if(polling_ || !reactor_.get() || !dispatch_queue_.empty()) {
 			dispatch_queue_.push_back(completion_handler(f));
 			if(reactor_.get())
 				wake();
